@@ -302,6 +302,8 @@ def reproducible(ctx):
         for how in ("build", "switch_register", "switch_device", "abstract"):
             if how == "abstract" and len(ctx.history) >= ABSTRACT_DEPTH["n"]:
                 continue
+            if how == "abstract" and any(not isinstance(q, str) for q in ctx.world.qids):
+                continue  # the published schema stores qubit ids as strings (C17's known finding); the other three copies keep them
             try:
                 other = _copy_of(seq, how, ctx.world)
             except Exception as e:
@@ -423,6 +425,10 @@ def plan(tier, seed):
          _alphabet(XY_CORE, XY_FAULTS, RO), 3),
     ]
     plans.append((corner("unit8", prefix=[], qubits=3, name="fresh", max_amp=20.0), _alphabet(FRESH_CORE, FRESH_FAULTS, RO), 2))
+    # integer qubit ids starting at the FALSY id 0 (what Register.square / from_coordinates hand out), given as scalar targets
+    plans.append((corner("unit8", prefix=[], qubits=3, name="fresh-int-ids-from-0", max_amp=20.0, qid_alias={"q0": 0, "q1": 1, "q2": 2}),
+                  _alphabet(FRESH_CORE + [("declare", "k", "raman_local", "q1"), ("target", "q0", "l"), ("add", A.C52, "l")], FRESH_FAULTS,
+                            {k: v for k, v in RO.items() if "draw" not in k}), 3))
     plans.append((corner("unit8", prefix=[], qubits=3, reusable=False, name="fresh-channels-not-reusable", max_amp=20.0),
                   _alphabet(FRESH_NR_CORE, FRESH_NR_FAULTS, {k: v for k, v in RO.items() if "draw" not in k}), 2))
     plans.append((corner("unit", prefix=[("slm", ["q0"], "dmm_0")] + A.GL, qubits=3, over={"dmm": dict(clock=4, min_dur=16, max_dur=100)},
